@@ -29,7 +29,23 @@ pub fn impl_roundtrip(text: &str) -> String {
         Ok(e) => {
             let shown = e.to_string();
             match Expr::parse(&shown) {
-                Ok(e2) if e2 == e => "same".into(),
+                Ok(e2) if e2 == e => {
+                    // the expression of a rule parsed from the same text is a parsed expression too
+                    if text.contains("//") || text.contains('@') {
+                        return "same".into();
+                    }
+                    match Rule::parse(&format!("// n\n{}", text)) {
+                        Err(_) => "same".into(),
+                        Ok(r) => {
+                            let shown = r.expr().to_string();
+                            match Expr::parse(&shown) {
+                                Ok(e3) if &e3 == r.expr() => "same".into(),
+                                Ok(_) => format!("different-tree (expression of the rule parsed from the text)\t{}", shown),
+                                Err(_) => format!("rendering-rejected (expression of the rule parsed from the text)\t{}", shown),
+                            }
+                        }
+                    }
+                }
                 Ok(_) => format!("different-tree\t{}", shown),
                 Err(_) => format!("rendering-rejected\t{}", shown),
             }
@@ -194,6 +210,28 @@ pub fn prec_stream() -> Vec<TextCase> {
         t.push(format!("a {} //c\r\n b", o1));
         t.push(format!("a{}b", o1));
         t.push(format!("a {}{} b", o1, o1));
+    }
+    // every built-in function (both spellings) and operator applied directly to literals of every class: what a
+    // constant folder, a simplifier or a cast-caching constructor would rewrite
+    let lits = ["\"2024-01-01T00:00:00Z\"", "i3600", "i0", "i1", "f1.5", "d1.50", "\"abc\"", "\" a \"", "true", "none", "[i1]", "{a: i1}"];
+    for kw in ["int", "float", "dec", "datetime", "date_time", "duration", "some", "is_some", "none", "is_none", "uppercase", "to_upper", "lowercase", "to_lower", "trim", "round", "floor", "fract", "year", "month", "week", "day", "hour", "minute", "second"] {
+        for l in lits {
+            t.push(format!("{}({})", kw, l));
+        }
+        t.push(format!("{}(x) > {}(\"2024-01-01T00:00:00Z\")", kw, kw));
+        t.push(format!("{}(x) - duration(i86400)", kw));
+    }
+    for l in lits {
+        for r in ["i0", "i1", "f1.5", "\"abc\"", "true", "none"] {
+            for o1 in ["+", "-", "*", "/", "==", "!=", ">", "and", "or", "contains", "&"] {
+                t.push(format!("{} {} {}", l, o1, r));
+            }
+        }
+        t.push(format!("-{}", l));
+        t.push(format!("!{}", l));
+        t.push(format!("if {} then {} else {}", l, l, l));
+        t.push(format!("{}.0", l));
+        t.push(format!("{}.a", l));
     }
     // long chains: associativity must hold at every length (17, 33 and 70 operands), for one operator and for two
     // operators of the same level alternating
@@ -799,6 +837,8 @@ pub fn run_c06(rep: &mut Report, driver: &str, workers: usize, thorough: bool, s
 }
 
 pub fn run_c07(rep: &mut Report, driver: &str, workers: usize, thorough: bool, seed: u64) {
+    // "Rule text is structured by …": the tree a rule holds for a text is the tree of that text
+    rule_vs_expr("C07", rep, workers, thorough, seed);
     let mut rng = Rng::new(seed);
     let run = run_texts(prec_stream(), false, driver, workers);
     judge_texts("C07", "precedence", "`a op1 b op2 c` (bare, left- and right-parenthesised, with postfix steps) for every ordered pair of the 19 binary operator tokens; unary x binary combinations; if in operand positions; calls / lists / maps as operands; synonym spellings; chaining / non-chaining of contains, index forms, trailing commas, keyword-vs-call forms — accept/reject and tree compared with the reference parser", true, &run, "full", rep);
@@ -833,6 +873,8 @@ pub fn run_c07(rep: &mut Report, driver: &str, workers: usize, thorough: bool, s
 }
 
 pub fn run_c08(rep: &mut Report, driver: &str, workers: usize, thorough: bool, seed: u64, known: &mut Vec<String>) {
+    // literals denote what is written in a rule's text too (raw carriage returns, line feeds and tabs inside strings included)
+    rule_vs_expr("C08", rep, workers, thorough, seed);
     let mut rng = Rng::new(seed);
     let mut texts = literal_stream(&mut rng, thorough);
     texts.extend(strlit_stream(&mut rng, thorough));
@@ -948,13 +990,17 @@ fn rule_objects(rep: &mut Report) {
 /// "the expression that the text without its `@key: value;` prefix parses to": for every text of the expression
 /// streams, `Rule::parse` of the text under a name comment (with and without metadata in front) must hold exactly the
 /// tree `Expr::parse` returns for the text alone, and must reject exactly the texts it rejects
-fn rule_vs_expr(rep: &mut Report, workers: usize, thorough: bool, seed: u64) {
+fn rule_vs_expr(prop: &str, rep: &mut Report, workers: usize, thorough: bool, seed: u64) {
     let mut rng = Rng::new(seed ^ 0x14);
     let mut texts = prec_stream();
-    texts.extend(toks_stream(false));
+    if prop != "C08" {
+        texts.extend(toks_stream(false));
+    }
     texts.extend(strlit_stream(&mut rng, false));
-    texts.extend(literal_stream(&mut rng, thorough));
-    for t in ["x * i1", "i1 * x", "x + i0", "x - i0", "x / i1", "x == none", "f(x) != none", "none == x", "if c then true else false", "--x", "!!x", "\"a\rb\"", "\"a\r\nb\"", "a and true", "false or a", "[x * i1, {k: x + i0}]"] {
+    texts.extend(literal_stream(&mut rng, thorough && prop == "C08"));
+    for t in ["x * i1", "i1 * x", "x + i0", "x - i0", "x / i1", "x == none", "f(x) != none", "none == x", "if c then true else false", "--x", "!!x", "\"a\rb\"", "\"a\r\nb\"", "a and true", "false or a", "[x * i1, {k: x + i0}]",
+        "\"line 1\r\nline 2\"", "\"a\nb\"", "\"a\tb\"", "\"a\u{85}b\"", "\"a\u{2028}b\"", "\"\r\"", "\"\r\n\"", "\"\n\r\"", "[\"a\rb\", \"c\r\nd\"]", "x == \"Main St 1\r\nSpringfield\"", "{k: \"a\r\"}", "\"a\r\" + \"\rb\"", "\" \r \"", "f(\"\r\")", "\"a\\rb\"",
+        "[]", "{}", "[i1, i2]", "([i1])", "{low: i1, high: i10}", "[[], {}]", "[\"a\", [i1, {k: none}]]", "{a: [i1], b: {c: f1.5}}", "[true, false, none]", "{z: i1, a: i2, z: i3}"] {
         texts.push(TextCase { text: t.to_string(), tag: "rule-vs-expr" });
     }
     let n = texts.len();
@@ -984,7 +1030,7 @@ fn rule_vs_expr(rep: &mut Report, workers: usize, thorough: bool, seed: u64) {
             });
         }
     });
-    let mut sr = StreamReport::new("rule-vs-expr", "every text of the precedence / token-sequence / string-literal / literal streams plus expressions a simplifier would rewrite (x * i1, x + i0, x == none, --x, if c then true else false, raw CR in strings): the tree inside Rule::parse(name comment or metadata + text) equals the tree of Expr::parse(text), and both reject the same texts — predicate on the real code alone", true);
+    let mut sr = StreamReport::new("rule-vs-expr", "every text of the precedence / token-sequence (not for C08) / string-literal / literal streams plus expressions a simplifier would rewrite (x * i1, x + i0, x == none, --x, if c then true else false), strings holding raw CR / CRLF / LF / TAB / NEL / LS, and literal-only lists and maps: the tree inside Rule::parse(name comment or metadata + text) equals the tree of Expr::parse(text), and both reject the same texts — predicate on the real code alone", true);
     for (t, o) in texts.iter().zip(out.iter()) {
         // a text that itself contains a comment line or an `@` would change the rule's name / metadata: skip those
         if t.text.contains("//") || t.text.contains('@') {
@@ -992,7 +1038,7 @@ fn rule_vs_expr(rep: &mut Report, workers: usize, thorough: bool, seed: u64) {
         }
         sr.count(&t.text, true);
         if let Some(d) = o {
-            rep.add_finding(Finding { kind: "impl-violates-property".into(), stream: "rule-vs-expr".into(), case: format!("rule-vs-expr\t{}", hex(&t.text)), human: format!("{:?}", t.text).chars().take(160).collect(), impl_out: d.chars().take(600).collect(), model_out: "same tree / same rejection".into(), predicate: "parsing rule text yields the expression that the text without its prefix parses to".into(), signature: format!("C14 rule-vs-expr {}", t.tag) });
+            rep.add_finding(Finding { kind: "impl-violates-property".into(), stream: "rule-vs-expr".into(), case: format!("rule-vs-expr\t{}", hex(&t.text)), human: format!("{:?}", t.text).chars().take(160).collect(), impl_out: d.chars().take(600).collect(), model_out: "same tree / same rejection".into(), predicate: "parsing rule text yields the expression that the text without its prefix parses to".into(), signature: format!("{} rule-vs-expr {}", prop, t.tag) });
         }
     }
     rep.streams.push(sr);
@@ -1000,7 +1046,7 @@ fn rule_vs_expr(rep: &mut Report, workers: usize, thorough: bool, seed: u64) {
 
 pub fn run_c14(rep: &mut Report, driver: &str, workers: usize, thorough: bool, seed: u64) {
     rule_objects(rep);
-    rule_vs_expr(rep, workers, thorough, seed);
+    rule_vs_expr("C14", rep, workers, thorough, seed);
     let mut rng = Rng::new(seed);
     let run = run_texts(rule_stream(&mut rng, thorough), true, driver, workers);
     judge_texts("C14", "rule-texts", "rule texts of 10 / 33 / 40 / 100 / 300 metadata items with repeated keys, scattered keys, long comment blocks, long names and large constants; rule texts assembled from 0..6 lines: 11 comment-line shapes (indented, empty, NBSP-padded, triple slash, containing `@name`), 26 metadata items (name / description overrides of string and non-string type, duplicates, non-constant values, malformed items) plus every constant shape of depth <= 3 over {literal, list, map} (systematically, incl. duplicate map keys), 14 expressions (multi-line string containing `//`, trailing comment, `/` and comments), placed before / between / after each other with \\n, \\r\\n or \\r endings; compared: name, description, the full metadata list, the expression tree, and which of MissingRuleName / RuleParseError is reported", false, &run, "full", rep);
